@@ -2270,6 +2270,12 @@ pub fn hostile_case(tier: &str, seed: u64, case: u64) -> CaseResult {
 			node.sync.update_pibd_progress(false, false, 0, 1, &h);
 			res.probe("node_in_pibd_status");
 		}
+	} else if case % 3 == 0 {
+		// the node believes it is in header sync: header lists are then taken, not ignored
+		if let Ok(hh) = node.chain.header_head() {
+			node.sync.update(grin_chain::SyncStatus::HeaderSync { sync_head: hh, highest_height: hh.height + 100, highest_diff: Difficulty::from_num(hh.total_difficulty.to_num() + 1000) });
+			res.probe("node_in_header_sync_status");
+		}
 	}
 	let (wtd, wh) = (world.blocks[winner].total_difficulty, world.blocks[winner].height);
 	let mut next_id = 0usize;
@@ -2326,6 +2332,50 @@ pub fn hostile_case(tier: &str, seed: u64, case: u64) -> CaseResult {
 			f.extend_from_slice(&body);
 			msgs.push((name.into(), f));
 		}
+	}
+	// well-formed messages with extreme but decodable content
+	{
+		use grin_core::core::{CompactBlock, TransactionBody};
+		use grin_p2p::msg::PeerAddrs;
+		let tip = &world.blocks[winner].block;
+		// the head block's header over an empty body; over another block's body
+		let mut empty = tip.clone();
+		empty.body = TransactionBody::empty();
+		msgs.push(("block-empty-body".into(), frame_of(Type::Block, empty, v)));
+		let mut swapped = tip.clone();
+		swapped.body = world.blocks[winner.saturating_sub(1).max(1)].block.body.clone();
+		msgs.push(("block-foreign-body".into(), frame_of(Type::Block, swapped, v)));
+		// a compact block with nothing in it under an honest header
+		let mut cb: CompactBlock = crate::wiresim::det_compact_block(tip, 7, v);
+		let honest_cb = cb.clone();
+		let mut bytes = ser::ser_vec(&tip.header, v).unwrap_or_default();
+		bytes.extend_from_slice(&7u64.to_be_bytes());
+		bytes.extend_from_slice(&[0u8; 24]);
+		if let Ok(e) = ser::deserialize::<CompactBlock, _>(&mut &bytes[..], v, ser::DeserializationMode::default()) {
+			cb = e;
+		}
+		let _ = honest_cb;
+		msgs.push(("compactblock-empty".into(), frame_of(Type::CompactBlock, cb, v)));
+		// a transaction that is nothing but a kernel
+		if let Some(k) = tip.kernels().first() {
+			let mut body = vec![0u8; 32];
+			body[31] = 2;
+			body.extend_from_slice(&0u64.to_be_bytes());
+			body.extend_from_slice(&0u64.to_be_bytes());
+			body.extend_from_slice(&1u64.to_be_bytes());
+			body.extend(ser::ser_vec(k, v).unwrap_or_default());
+			let mut f = frame_of(Type::Transaction, Hash::from_vec(&[0u8; 32]), v);
+			f.truncate(11);
+			refit(&mut f, body.len() as u64);
+			f.extend_from_slice(&body);
+			msgs.push(("tx-kernel-only".into(), f));
+		}
+		msgs.push(("peeraddrs-empty".into(), frame_of(Type::PeerAddrs, PeerAddrs { peers: vec![] }, v)));
+		let odd: Vec<PeerAddr> = ["0.0.0.0:0", "255.255.255.255:65535", "127.0.0.1:13414", "[::]:0", "[::1]:1", "[ffff:ffff:ffff:ffff:ffff:ffff:ffff:ffff]:65535"].iter().map(|a| PeerAddr(a.parse().unwrap())).collect();
+		msgs.push(("peeraddrs-odd".into(), frame_of(Type::PeerAddrs, PeerAddrs { peers: odd }, v)));
+		msgs.push(("getheaders-zero-hashes".into(), frame_of(Type::GetHeaders, Locator { hashes: vec![Hash::from_vec(&[0u8; 32]); 20] }, v)));
+		let hs: Vec<BlockHeader> = (0..40).map(|_| tip.header.clone()).collect();
+		msgs.push(("headers-same-header-40-times".into(), frame_of(Type::Headers, Headers { headers: hs }, v)));
 	}
 	msgs.push(("txhashsetarchive-unsolicited-0".into(), frame_of(Type::TxHashSetArchive, TxHashSetArchive { hash: ah, height: 20, bytes: 0 }, v)));
 	msgs.push(("txhashsetarchive-unsolicited-huge".into(), frame_of(Type::TxHashSetArchive, TxHashSetArchive { hash: ah, height: 20, bytes: 1 << 40 }, v)));
